@@ -6,28 +6,55 @@ handle; program counters at the granularity of lock acquisition / wait / signal 
 `WaitCondvar<bool>` = flag under a mutex, `wait` re-tests the flag in a loop, a notify with no
 parked waiter is lost; the two raw condvars are waited on with a single `if`; transaction
 sizes are arbitrary naturals (0 .. beyond the 16 MiB / 128 MiB limits, which are the constants
-regenerated from src/db.rs).  All interleavings, injected worker failures at any I/O step,
-drop at any moment (Rust ownership: not inside a commit call).
+regenerated from src/db.rs).  All interleavings, injected worker failures at every `?` of the
+worker loops, drop at any moment (Rust ownership: not inside a commit call, not inside an
+iteration callback).  Environment actions added after the audit: commit DEFERRAL while a client
+holds a tree lock (`defer`, `lockTree` / `unlockTree`) and the deferral CYCLE (`makeCycle`),
+the iteration lock (`iterHold` / `iterRelease`), index growth and reindex gating by record id
+(`grow`, `dropEnacted`, `reClear`), worker panics (`panic`, only in `ReachableP`).
 
 Tie to the code: T0 - the shapes that matter are `Cfg` flags computed from the generated
 skeletons (`cfgOfGen`), the WaitCondvar semantics rests on the order obligations
-`Ord.signal_under_mutex` / `Ord.wait_retests_flag`, worker loop shapes on `Ord.*_shape`;
-plus the oracle runs of harness/src/c15.rs (real crate with workers, watchdog).
+`Ord.signal_under_mutex` / `Ord.wait_retests_flag`, worker loop shapes on `Ord.*_shape`,
+`C15_gen_new_shapes`; plus the oracle runs of harness/src/c15.rs (real crate with workers,
+watchdog; scenarios `quiesce`, `logqfull`, `growth`, `defercycle` build the states of the
+witnesses below on the real crate).
 
-THE FULL STATEMENT IS FALSE OF THE CURRENT TREE: three defects (F7, F12, F13) are exhibited
-below as machine-checked schedules of the unpatched model (`unpatchedCfg`), each replayed on
-the real crate (see the report).  The theorems are proved for the fixed configuration
-(`Fixed cfg`: fixes/fix-c15-*.diff applied) and apply to the generated configuration as soon
-as `cfgOfGen` has all five flags set (`C15_*_gen`).
-
-Progress is stated under weak fairness of enabled steps: `C15_no_stuck` (no reachable state in
-which every thread is blocked while something is pending) together with
-`C15_shutdown_terminates` (a measure that every worker step decreases once shutdown is
-signalled) gives: every fair run drains and every fair shutdown terminates.
-Strength: proof of the model + T0 + oracle runs; OS scheduler fairness and real condvar
-semantics (no spurious wake-ups are needed, none are modelled) are assumed: partial by nature.
+WHAT IS PROVED (fixed configuration = the three fixes e2435c7 / 100a265 / 560b45b, which are in
+the tree: `C15_gen_fixed`; schedules without worker panics = `Reachable`):
+  * `C15_no_lost_wakeup` (every configuration, panics included: `C15_no_lost_wakeup_with_panic`);
+  * `C15_commit_returns`, `C15_commit_wakeups`;
+  * `C15_quiescent` / `C15_no_stuck`: when no thread can move, and no CLIENT-held lock is what
+    blocks one (`clientLetsGo`: fairness of the client, outside C15's quantifier), and no
+    deferral cycle is queued, nothing is pending;
+  * `C15_progress` / `C15_client_free_runs_are_finite` / `C15_drains` /
+    `C15_quiescent_accounting`: a potential that EVERY step of EVERY thread decreases, running or
+    shutting down: without client activity the system reaches quiescence within `phi` steps
+    under ANY scheduler (no fairness needed), and there every accepted commit is logged, every
+    rotated log file enacted, no commit call parked;
+  * `C15_shutdown_terminates`, `C15_shutdown_signalled`, `C15_kill_logs_total`,
+    `C15_drop_persists_all` (queue / appending file empty, NO file half read when
+    `Log::kill_logs` deletes the reading file, accepted + batches = records = enacted + left in
+    complete flushed files), `C15_iteration_lock_exclusive`,
+    `C15_reindex_needs_only_a_wakeup`.
+WHAT IS REFUTED (machine-checked schedules, each replayed on the real crate by the harness):
+  * unpatched programs: F7, F12 (reachable in the LTS; the real window is a few instructions,
+    the harness exercises the path but cannot force the window), F13;
+  * NEW FINDING `C15_defer_cycle_livelock` / `C15_defer_cycle_kill_blocks`: two queued commits
+    that each dereference a tree the other one recorded in `used_trees` are deferred for ever
+    by `process_commits` with no lock held: accepted commits are never logged, the log worker
+    spins, `drop` never returns (harness scenario `defercycle`);
+  * client-held locks: `C15_defer_busy_spin` / `C15_defer_kill_blocks` (tree lock),
+    `C15_iter_held_stalls` (iteration lock): progress resumes on release
+    (`C15_defer_release_terminates`, `C15_iter_release_drains`);
+  * "a pending reindex completes without client activity": `C15_reindex_stalls`,
+    `C15_reindex_lost_trigger` (commits are unaffected: `C15_reindex_stall_harmless_for_commits`);
+  * worker panic: `C15_panic_witness`, `C15_no_stuck_false_with_panic`;
+  * `readQ = []` after drop: `C15_drop_leaves_flushed_files`.
+Strength: proof of the model + T0 + oracle runs; real condvar semantics (no spurious wake-ups
+are needed, none are modelled) assumed: partial by nature.
 -/
-import Pdb.Proofs.C15Term
+import Pdb.Proofs.C15Prog
 import Pdb.Proofs.Order
 
 namespace Pdb.Conc.Pipe
@@ -48,11 +75,29 @@ def nothingPending (cfg : Cfg) (s : St) : Prop :=
   -- after shutdown / a stored error: all four workers have exited
   (s.shutdown = true → s.pl = .done ∧ s.pf = .done ∧ s.pc = .done ∧ s.pk = .done) ∧
   -- handle dropped: logs reclaimed; without a stored error every accepted commit has been logged
-  -- and its log file flushed (enacted, or left for replay by the next open)
-  (s.pd = .done → s.dirty = 0 ∧ (s.bgErr = false → s.q = [] ∧ sum s.app = 0))
+  -- and its log file flushed (enacted, or left in a COMPLETE flushed file for replay by the next
+  -- open): queue and appending file empty, no file half read (`Log::kill_logs` deletes the file
+  -- being read), nothing deleted unread; accepted commits + reindex batches = records written,
+  -- records written = records enacted + records in the flushed files left behind
+  (s.pd = .done → s.dirty = 0 ∧
+    (s.bgErr = false → s.q = [] ∧ s.app = [] ∧ s.reading = none ∧ s.killLost = 0 ∧
+      s.accepted + s.nBatches + 1 = s.nLogged ∧ s.nLogged = s.nEnacted + lenSum s.readQ))
 
+/-- No CLIENT-held lock is what keeps a thread from moving: the commit worker is not waiting for
+    the iteration lock of a client callback, `kill_logs` is not deferring a tree dereference
+    whose tree reader a client keeps locked.  (Fairness of the CLIENT, outside C15's quantifier:
+    C15 promises progress "without needing further client activity", not without the client
+    ever releasing what it holds.) -/
+def clientLetsGo (s : St) : Prop :=
+  (s.pc = .enRead → s.iterHeld = false) ∧ (s.pd = .kill → s.treeLocked = false)
+
+/-- THE FULL STATEMENT (without the last hypothesis) IS FALSE OF THE CURRENT TREE even with the
+    three fixes: a deferral cycle in the commit queue (`deferCycle`, finding "deferral
+    livelock", `C15_defer_cycle_livelock` / `C15_defer_cycle_kill_blocks` below) makes
+    `process_commits` re-queue the same commits for ever, with no lock held by anybody. -/
 def C15_no_stuck_stmt (cfg : Cfg) (nCm reidx : Nat) : Prop :=
-  ∀ s, Reachable cfg nCm reidx s → allBlocked cfg s = true → nothingPending cfg s
+  ∀ s, Reachable cfg nCm reidx s → allBlocked cfg s = true → clientLetsGo s → s.deferCycle = false →
+    nothingPending cfg s
 
 theorem fixed_of_patched {cfg : Cfg} (hw : cfg.workers = true) (hp : cfg.patched = true) : Fixed cfg := by
   simp only [Cfg.patched, Bool.and_eq_true] at hp
@@ -120,13 +165,19 @@ theorem C15_commit_wakeups (cfg : Cfg) (s : St) :
 
 /-! ### C15_no_stuck -/
 
-/-- **C15_no_stuck.**  Fixed configuration with workers: in every reachable state in which
-    every thread is blocked or finished, nothing is pending. -/
-theorem C15_no_stuck (cfg : Cfg) (hF : Fixed cfg) (hm : cfg.minLog ≤ MAXL) (n r : Nat) :
-    C15_no_stuck_stmt cfg n r := by
-  intro s h hb
+/-- **C15_quiescent** (running system).  Fixed configuration: when no thread can move, no client
+    callback holds the iteration lock the commit worker wants, and the shutdown flag is not set:
+    all four workers are parked in their idle waits with unset flags, the queue is empty, the
+    appending file is below the flush threshold, every flushed file is enacted, dirty logs are
+    within the limit and no commit call is pending. -/
+theorem C15_quiescent (cfg : Cfg) (hF : Fixed cfg) (hm : cfg.minLog ≤ MAXL) (n r : Nat) (s : St)
+    (h : Reachable cfg n r s) (hb : allBlocked cfg s = true) (hcl : clientLetsGo s) (hsh : s.shutdown = false) :
+    s.pd = .idle ∧ s.pl = .waitL ∧ s.cvL.flag = false ∧ s.pf = .waitF ∧ s.pc = .waitC ∧ s.pk = .waitK ∧
+    s.q = [] ∧ sum s.app ≤ cfg.minLog ∧ s.readQ = [] ∧ s.reading = none ∧ s.dirty ≤ cfg.maxLogs ∧
+    (∀ c ∈ s.cms, c = .idle) := by
   obtain ⟨cv, g1, gp, gn, gd⟩ := inv_reachable hF h
   have gx := gx_reachable hF.w h
+  have ga := (ga_reachable hF.w h).2
   simp only [allBlocked, Bool.and_eq_true, Option.isNone_iff_eq_none] at hb
   obtain ⟨⟨⟨⟨⟨hL, hFl⟩, hC⟩, hK⟩, hD⟩, hCm⟩ := hb
   obtain ⟨hqf, hcms⟩ := cms_blocked hCm
@@ -138,88 +189,174 @@ theorem C15_no_stuck (cfg : Cfg) (hF : Fixed cfg) (hm : cfg.minLog ≤ MAXL) (n 
     · simpa using hp
   have bL := tickL_none hL hlf hqf
   have bF := tickF_none hFl hlf hqf
+  have hC : tickC cfg s = none := by
+    rcases tickCg_none_held hC with h1 | ⟨h1, h2⟩
+    · exact h1
+    · rw [hcl.1 h2] at h1; cases h1
   have bC := tickC_none hC hlf hqf
   have bK := tickK_none hK hlf hqf
-  have bD := tickD_none hF.p1 hD hlf (fun hp => g1.a2 (by rw [hp]; rfl))
-  cases hsh : s.shutdown with
-  | false =>
-    -- running system: nobody has exited, the owner is idle
-    have nL : s.pl ≠ .done := fun hp => by have := g1.a6l (by rw [hp]; rfl); rw [hsh] at this; cases this
-    have nF : s.pf ≠ .done := fun hp => by have := g1.a6f (by rw [hp]; rfl); rw [hsh] at this; cases this
-    have nC : s.pc ≠ .done := fun hp => by have := g1.a6c (by rw [hp]; rfl); rw [hsh] at this; cases this
-    have nK : s.pk ≠ .done := fun hp => by have := g1.a6k (by rw [hp]; rfl); rw [hsh] at this; cases this
-    have hpd : s.pd = .idle := by
-      rcases bD with hp | hp | hp | ⟨hp, _⟩ | ⟨hp, _⟩ | ⟨hp, _⟩ | ⟨hp, _⟩
-      · exact hp
-      all_goals first
-        | (exact absurd hp g1.a8)
-        | (have := g1.a2 (by rw [hp]; rfl); rw [hsh] at this; cases this)
-    obtain ⟨pF, wF, nfF⟩ := bF.resolve_left nF
-    obtain ⟨pK, wK, nfK⟩ := bK.resolve_left nK
-    have fF : s.cvF.flag = false := cv.f.parked wF nfF
-    have fK : s.cvK.flag = false := cv.k.parked wK nfK
-    -- the commit worker cannot be waiting for a cleanup
-    have pC : s.pc = .waitC ∧ s.cvC.flag = false := by
-      rcases bC.resolve_left nC with ⟨p, w, nf⟩ | ⟨p, w, nf⟩
-      · exact ⟨p, cv.c.parked w nf⟩
-      · exfalso
-        have fQ := cv.q.parked w nf
-        rcases gp.rcq hsh p fQ with hd | hk
-        · rcases gp.rk hsh hd with h1 | h1 | h1
-          · rw [fK] at h1; cases h1
-          · rw [pK] at h1; simp [kHead] at h1
-          · rw [p] at h1; simp [cSig] at h1
-        · rw [pK] at hk; simp [isClSignal] at hk
-    have hrq : s.readQ = [] := by
-      by_cases hq : s.readQ = []
-      · exact hq
-      · rcases gp.rc1 hsh hq pC.1 with h1 | h1
-        · rw [pC.2] at h1; cases h1
-        · rw [pF] at h1; cases h1
-    have hrd : s.reading = none := by
-      by_cases hq : s.reading = none
-      · exact hq
-      · have := gp.rc2 hsh hq; rw [pC.1] at this; simp [cHead] at this
-    have hnw2 : isWrite2 s.pl = false := by
-      rcases bL.resolve_left nL with ⟨p, _⟩ | ⟨p, _⟩ <;> (rw [p]; rfl)
-    have happ : sum s.app ≤ cfg.minLog := by
-      by_cases hq : sum s.app > cfg.minLog
-      · rcases gp.rf hsh hq with h1 | h1 | h1
-        · rw [fF] at h1; cases h1
-        · rw [pF] at h1; simp [fHead] at h1
-        · rw [hnw2] at h1; cases h1
-      · omega
-    -- the log worker cannot be parked on the log-queue throttle: too few bytes are outstanding
-    have pL : s.pl = .waitL ∧ s.cvL.flag = false := by
-      rcases bL.resolve_left nL with ⟨p, w, nf⟩ | ⟨p, nn⟩
-      · exact ⟨p, cv.l.parked w nf⟩
-      · exfalso
-        have h1 := gn.rlq (Or.inr ⟨p, nn⟩)
-        have h2 := gn.racc
-        rw [p, hrq, hrd] at h2
-        simp only [RACC, pendL, sumsum_nil, sumOpt] at h2
-        have : (MAXL : Int) ≥ (cfg.minLog : Int) := by exact_mod_cast hm
-        omega
-    have hq : s.q = [] := by
-      by_cases hq : s.q = []
-      · exact hq
-      · rcases gp.rl hsh hq with h1 | h1
-        · rw [pL.2] at h1; cases h1
-        · rw [pL.1] at h1; simp [lHead] at h1
-    have hdirty : s.dirty ≤ cfg.maxLogs := by
-      by_cases hd : s.dirty > cfg.maxLogs
+  have bD : s.pd = .idle ∨ s.pd = .done ∨ s.pd = .stuck ∨ (s.pd = .joinL ∧ s.pl ≠ .done) ∨
+      (s.pd = .joinF ∧ s.pf ≠ .done) ∨ (s.pd = .joinC ∧ s.pc ≠ .done) ∨ (s.pd = .joinK ∧ s.pk ≠ .done) := by
+    by_cases hk : s.pd = .kill
+    · exfalso
+      have := g1.a2 (by rw [hk]; rfl)
+      rw [hsh] at this; cases this
+    · unfold tickD at hD
+      split at hD
+      · rename_i hp; exact Or.inl hp
+      · cases hD
+      · simp [hlf] at hD
+      · rename_i hp; split at hD
+        · cases hD
+        · rename_i hn; exact Or.inr (Or.inr (Or.inr (Or.inl ⟨hp, hn⟩)))
+      · rename_i hp; split at hD
+        · cases hD
+        · rename_i hn; exact Or.inr (Or.inr (Or.inr (Or.inr (Or.inl ⟨hp, hn⟩))))
+      · rename_i hp; split at hD
+        · cases hD
+        · rename_i hn; exact Or.inr (Or.inr (Or.inr (Or.inr (Or.inr (Or.inl ⟨hp, hn⟩)))))
+      · rename_i hp; split at hD
+        · cases hD
+        · rename_i hn; exact Or.inr (Or.inr (Or.inr (Or.inr (Or.inr (Or.inr ⟨hp, hn⟩)))))
+      · rename_i hp; exact absurd hp hk
+      · cases hD
+      · rename_i hp; exact Or.inr (Or.inr (Or.inl hp))
+      · rename_i hp; exact Or.inr (Or.inl hp)
+  -- running system: nobody has exited, the owner is idle
+  have nL : s.pl ≠ .done := fun hp => by have := g1.a6l (by rw [hp]; rfl); rw [hsh] at this; cases this
+  have nF : s.pf ≠ .done := fun hp => by have := g1.a6f (by rw [hp]; rfl); rw [hsh] at this; cases this
+  have nC : s.pc ≠ .done := fun hp => by have := g1.a6c (by rw [hp]; rfl); rw [hsh] at this; cases this
+  have nK : s.pk ≠ .done := fun hp => by have := g1.a6k (by rw [hp]; rfl); rw [hsh] at this; cases this
+  have hpd : s.pd = .idle := by
+    rcases bD with hp | hp | hp | ⟨hp, _⟩ | ⟨hp, _⟩ | ⟨hp, _⟩ | ⟨hp, _⟩
+    · exact hp
+    all_goals first
+      | (exact absurd hp g1.a8)
+      | (have := g1.a2 (by rw [hp]; rfl); rw [hsh] at this; cases this)
+  obtain ⟨pF, wF, nfF⟩ := bF.resolve_left nF
+  obtain ⟨pK, wK, nfK⟩ := bK.resolve_left nK
+  have fF : s.cvF.flag = false := cv.f.parked wF nfF
+  have fK : s.cvK.flag = false := cv.k.parked wK nfK
+  -- the commit worker cannot be waiting for a cleanup
+  have pC : s.pc = .waitC ∧ s.cvC.flag = false := by
+    rcases bC.resolve_left nC with ⟨p, w, nf⟩ | ⟨p, w, nf⟩
+    · exact ⟨p, cv.c.parked w nf⟩
+    · exfalso
+      have fQ := cv.q.parked w nf
+      rcases gp.rcq hsh p fQ with hd | hk
       · rcases gp.rk hsh hd with h1 | h1 | h1
         · rw [fK] at h1; cases h1
         · rw [pK] at h1; simp [kHead] at h1
-        · rw [pC.1] at h1; simp [cSig] at h1
-      · omega
-    have hidle : ∀ c ∈ s.cms, c = .idle := by
-      intro c hc
-      rcases hcms c hc with h1 | ⟨b, h1⟩
-      · exact h1
-      · exfalso
-        have := gn.rq ⟨c, hc, by rw [h1]; rfl⟩
-        rw [hq] at this; simp at this
+        · rw [p] at h1; simp [cSig] at h1
+      · rw [pK] at hk; simp [isClSignal] at hk
+  have hrq : s.readQ = [] := by
+    by_cases hq : s.readQ = []
+    · exact hq
+    · rcases gp.rc1 hsh hq pC.1 with h1 | h1
+      · rw [pC.2] at h1; cases h1
+      · rw [pF] at h1; cases h1
+  have hrd : s.reading = none := by
+    by_cases hq : s.reading = none
+    · exact hq
+    · have := gp.rc2 hsh hq; rw [pC.1] at this; simp [cHead] at this
+  have hnw2 : isWrite2 s.pl = false := by
+    rcases bL.resolve_left nL with ⟨p, _⟩ | ⟨p, _⟩ <;> (rw [p]; rfl)
+  have happ : sum s.app ≤ cfg.minLog := by
+    by_cases hq : sum s.app > cfg.minLog
+    · rcases gp.rf hsh hq with h1 | h1 | h1
+      · rw [fF] at h1; cases h1
+      · rw [pF] at h1; simp [fHead] at h1
+      · rw [hnw2] at h1; cases h1
+    · omega
+  -- the log worker cannot be parked on the log-queue throttle: too few bytes are outstanding
+  have pL : s.pl = .waitL ∧ s.cvL.flag = false := by
+    rcases bL.resolve_left nL with ⟨p, w, nf⟩ | ⟨p, nn⟩
+    · exact ⟨p, cv.l.parked w nf⟩
+    · exfalso
+      have h1 := gn.rlq (Or.inr ⟨p, nn⟩)
+      have h2 := gn.racc
+      rw [p, hrq, hrd] at h2
+      simp only [RACC, pendL, sumsum_nil, sumOpt] at h2
+      have : (MAXL : Int) ≥ (cfg.minLog : Int) := by exact_mod_cast hm
+      omega
+  have hq : s.q = [] := by
+    by_cases hq : s.q = []
+    · exact hq
+    · rcases gp.rl hsh hq with h1 | h1
+      · rw [pL.2] at h1; cases h1
+      · rw [pL.1] at h1; simp [lHead] at h1
+  have hdirty : s.dirty ≤ cfg.maxLogs := by
+    by_cases hd : s.dirty > cfg.maxLogs
+    · rcases gp.rk hsh hd with h1 | h1 | h1
+      · rw [fK] at h1; cases h1
+      · rw [pK] at h1; simp [kHead] at h1
+      · rw [pC.1] at h1; simp [cSig] at h1
+    · omega
+  have hidle : ∀ c ∈ s.cms, c = .idle := by
+    intro c hc
+    rcases hcms c hc with h1 | ⟨b, h1⟩
+    · exact h1
+    · exfalso
+      have := gn.rq ⟨c, hc, by rw [h1]; rfl⟩
+      rw [hq] at this; simp at this
+  exact ⟨hpd, pL.1, pL.2, pF, pC.1, pK, hq, happ, hrq, hrd, hdirty, hidle⟩
+
+/-- **C15_no_stuck.**  Fixed configuration with workers: in every reachable state in which
+    every thread is blocked or finished, nothing is pending. -/
+theorem C15_no_stuck (cfg : Cfg) (hF : Fixed cfg) (hm : cfg.minLog ≤ MAXL) (n r : Nat) :
+    C15_no_stuck_stmt cfg n r := by
+  intro s h hb hcl hdc
+  have hb0 := hb
+  obtain ⟨cv, g1, gp, gn, gd⟩ := inv_reachable hF h
+  have gx := gx_reachable hF.w h
+  have ga := (ga_reachable hF.w h).2
+  simp only [allBlocked, Bool.and_eq_true, Option.isNone_iff_eq_none] at hb
+  obtain ⟨⟨⟨⟨⟨hL, hFl⟩, hC⟩, hK⟩, hD⟩, hCm⟩ := hb
+  obtain ⟨hqf, hcms⟩ := cms_blocked hCm
+  -- the log worker is not between its throttle test and the wait (that step is always enabled)
+  have hlf : lqFree s = true := by
+    unfold lqFree
+    by_cases hp : s.pl = .lqAbout
+    · unfold tickL at hL; rw [hp] at hL; cases hL
+    · simpa using hp
+  have bL := tickL_none hL hlf hqf
+  have bF := tickF_none hFl hlf hqf
+  have hC : tickC cfg s = none := by
+    rcases tickCg_none_held hC with h1 | ⟨h1, h2⟩
+    · exact h1
+    · rw [hcl.1 h2] at h1; cases h1
+  have bC := tickC_none hC hlf hqf
+  have bK := tickK_none hK hlf hqf
+  have bD : s.pd = .idle ∨ s.pd = .done ∨ s.pd = .stuck ∨ (s.pd = .joinL ∧ s.pl ≠ .done) ∨
+      (s.pd = .joinF ∧ s.pf ≠ .done) ∨ (s.pd = .joinC ∧ s.pc ≠ .done) ∨ (s.pd = .joinK ∧ s.pk ≠ .done) := by
+    by_cases hk : s.pd = .kill
+    · exfalso
+      obtain ⟨s', hs'⟩ := killLogsSeq_some hF.p1 (g1.a2 (by rw [hk]; rfl)) (hcl.2 hk) hdc
+      unfold tickD at hD; rw [hk] at hD; simp only at hD; rw [hs'] at hD; cases hD
+    · unfold tickD at hD
+      split at hD
+      · rename_i hp; exact Or.inl hp
+      · cases hD
+      · simp [hlf] at hD
+      · rename_i hp; split at hD
+        · cases hD
+        · rename_i hn; exact Or.inr (Or.inr (Or.inr (Or.inl ⟨hp, hn⟩)))
+      · rename_i hp; split at hD
+        · cases hD
+        · rename_i hn; exact Or.inr (Or.inr (Or.inr (Or.inr (Or.inl ⟨hp, hn⟩))))
+      · rename_i hp; split at hD
+        · cases hD
+        · rename_i hn; exact Or.inr (Or.inr (Or.inr (Or.inr (Or.inr (Or.inl ⟨hp, hn⟩)))))
+      · rename_i hp; split at hD
+        · cases hD
+        · rename_i hn; exact Or.inr (Or.inr (Or.inr (Or.inr (Or.inr (Or.inr ⟨hp, hn⟩)))))
+      · rename_i hp; exact absurd hp hk
+      · cases hD
+      · rename_i hp; exact Or.inr (Or.inr (Or.inl hp))
+      · rename_i hp; exact Or.inr (Or.inl hp)
+  cases hsh : s.shutdown with
+  | false =>
+    obtain ⟨hpd, _, _, _, _, _, hq, happ, hrq, hrd, hdirty, hidle⟩ := C15_quiescent cfg hF hm n r s h hb0 hcl hsh
     exact ⟨Or.inl hpd, hidle, fun _ => ⟨hq, happ, hrq, hrd, hdirty⟩, (fun h => by rw [hsh] at h; cases h),
       (fun hp => by rw [hpd] at hp; cases hp)⟩
   | true =>
@@ -284,8 +421,28 @@ theorem C15_no_stuck (cfg : Cfg) (hF : Fixed cfg) (hm : cfg.minLog ≤ MAXL) (n 
           · rw [dK] at h2; cases h2
         · have := g1.a1 (by rw [hp]; simp) c hc
           rw [h1] at this; cases this
-    exact ⟨hpd, hidle, (fun h => by rw [hsh] at h; cases h), fun _ => ⟨dL, dF, dC, dK⟩,
-      fun hp => gd.fin (Or.inr hp)⟩
+    refine ⟨hpd, hidle, (fun h => by rw [hsh] at h; cases h), fun _ => ⟨dL, dF, dC, dK⟩, fun hp => ?_⟩
+    obtain ⟨hd0, hrest⟩ := gd.fin (Or.inr hp)
+    refine ⟨hd0, fun hb => ?_⟩
+    obtain ⟨hq, hsum, hrd, hkl⟩ := hrest hb
+    have happ : s.app = [] := by
+      cases hap : s.app with
+      | nil => rfl
+      | cons r rs =>
+        exfalso
+        have := ga.r4 r (by rw [hap]; simp)
+        rw [hap, sum_cons] at hsum; omega
+    have hlost : s.lost = 0 := by
+      cases hl : s.lost with
+      | zero => rfl
+      | succ n =>
+        rcases ga.r3 (by omega) with h1 | h1
+        · rw [hb] at h1; cases h1
+        · rw [dL] at h1; cases h1
+    have h2 := ga.r2
+    have h1 := ga.r1
+    simp only [RA2, RA1, hq, dL, inflight, hlost, happ, hrd, optLen, List.length_nil] at h1 h2
+    exact ⟨hq, happ, hrd, hkl, by omega, by omega⟩
 
 /-! ### C15_shutdown_terminates -/
 
@@ -303,7 +460,7 @@ theorem C15_shutdown_terminates (cfg : Cfg) (hF : Fixed cfg) (n r : Nat) (s s' :
   cases t with
   | L => exact measure_tickL hF g1 gd hsd hs
   | F => exact measure_tickF hF g1 gd hsd hs
-  | C => exact measure_tickC hF g1 gd hsd hs
+  | C => exact measure_tickC hF g1 gd hsd (tickCg_some hs)
   | K => exact measure_tickK hF g1 gd hsd hs
   | D => exact absurd rfl ht
 
@@ -314,9 +471,11 @@ theorem C15_shutdown_signalled (cfg : Cfg) (hF : Fixed cfg) (n r : Nat) (s : St)
     s.pd = .sd2 ∨ s.pl = .err .e2 ∨ s.pf = .err .e2 ∨ s.pc = .err .e2 ∨ s.pk = .err .e2 :=
   (inv_reachable hF h).g1.a5 hsh hsd
 
-/-- with the fix of F7 the owner's `kill_logs` never blocks -/
-theorem C15_kill_logs_total (cfg : Cfg) (hF : Fixed cfg) (s : St) (hs : s.shutdown = true) :
-    ∃ s', killLogsSeq cfg s = some s' := killLogsSeq_some hF.p1 hs
+/-- with the fix of F7 the owner's `kill_logs` never blocks (no tree lock held by a client:
+    otherwise `while process_commits()? {}` may defer the same commit for ever) -/
+theorem C15_kill_logs_total (cfg : Cfg) (hF : Fixed cfg) (s : St) (hs : s.shutdown = true)
+    (ht : s.treeLocked = false) (hdc : s.deferCycle = false) : ∃ s', killLogsSeq cfg s = some s' :=
+  killLogsSeq_some hF.p1 hs ht hdc
 
 /-! ### the generated configuration -/
 
@@ -346,7 +505,20 @@ def C := Act.tick .C
 def K := Act.tick .K
 def D := Act.tick .D
 
+/-- no client holds the iteration lock or a tree lock, no deferral cycle is queued -/
+def letsGoB (s : St) : Bool := !s.iterHeld && !s.treeLocked && !s.deferCycle
+
+theorem clientLetsGo_of_b {s : St} (h : letsGoB s = true) : clientLetsGo s := by
+  simp only [letsGoB, Bool.and_eq_true, Bool.not_eq_true'] at h
+  exact ⟨fun _ => h.1.1, fun _ => h.1.2⟩
+
+theorem noCycle_of_b {s : St} (h : letsGoB s = true) : s.deferCycle = false := by
+  simp only [letsGoB, Bool.and_eq_true, Bool.not_eq_true'] at h
+  exact h.2
+
+/-- the schedule is panic-free, runs to the end, and the final state satisfies `P` -/
 def runChk (cfg : Cfg) (nCm reidx : Nat) (sched : List Act) (P : St → Bool) : Bool :=
+  sched.all (fun a => !a.isPanic) &&
   match run cfg (init cfg nCm reidx) sched with
   | some s => P s
   | none => false
@@ -354,6 +526,24 @@ def runChk (cfg : Cfg) (nCm reidx : Nat) (sched : List Act) (P : St → Bool) : 
 theorem runChk_sound {cfg : Cfg} {nCm reidx : Nat} {sched : List Act} {P : St → Bool}
     (h : runChk cfg nCm reidx sched P = true) : ∃ s, Reachable cfg nCm reidx s ∧ P s = true := by
   unfold runChk at h
+  rw [Bool.and_eq_true] at h
+  obtain ⟨hnp, h⟩ := h
+  split at h
+  · rename_i s hs
+    refine ⟨s, ⟨sched, fun a ha => ?_, hs⟩, h⟩
+    have := List.all_eq_true.1 hnp a ha
+    simpa using this
+  · cases h
+
+/-- the same for schedules WITH worker panics -/
+def runChkP (cfg : Cfg) (nCm reidx : Nat) (sched : List Act) (P : St → Bool) : Bool :=
+  match run cfg (init cfg nCm reidx) sched with
+  | some s => P s
+  | none => false
+
+theorem runChkP_sound {cfg : Cfg} {nCm reidx : Nat} {sched : List Act} {P : St → Bool}
+    (h : runChkP cfg nCm reidx sched P = true) : ∃ s, ReachableP cfg nCm reidx s ∧ P s = true := by
+  unfold runChkP at h
   split at h
   · rename_i s hs; exact ⟨s, ⟨sched, hs⟩, h⟩
   · cases h
@@ -367,7 +557,8 @@ def f7NoThreads : List Act :=
 
 theorem F7_witness_no_workers :
     runChk (unpatchedCfg 0 true false) 1 0 f7NoThreads
-      (fun s => allBlocked (unpatchedCfg 0 true false) s && s.pd == .kill && s.dirty == 5 && s.q == [10]) = true := by
+      (fun s => allBlocked (unpatchedCfg 0 true false) s && s.pd == .kill && s.dirty == 5 && s.q == [10] &&
+        letsGoB s) = true := by
   decide
 
 /-- F7 with workers (`sync_data = false`, always_flush): 17 paced commits leave KEEP_LOGS = 16
@@ -375,7 +566,7 @@ theorem F7_witness_no_workers :
     is reading (17 dirty) and exits, the cleanup worker has already exited, all four joins
     succeed, and `kill_logs` enacts the first record of the next file and waits for ever. -/
 def f7Threads : List Act :=
-  [.commit 0 10] ++ rep 14 L ++ rep 8 F ++ rep 16 C ++ rep 9 K ++
+  [.commit 0 10] ++ rep 15 L ++ rep 8 F ++ rep 16 C ++ rep 9 K ++
   (List.replicate 15 ([Act.commit 0 10] ++ rep 12 L ++ rep 7 F ++ rep 9 C ++ rep 5 K)).flatten ++
   [.commit 0 10] ++ rep 12 L ++ rep 7 F ++ rep 9 C ++ rep 8 K ++
   [.commit 0 10] ++ rep 12 L ++ rep 7 F ++ [.commit 0 10] ++ rep 12 L ++
@@ -385,7 +576,7 @@ set_option maxRecDepth 100000 in
 theorem F7_witness_workers :
     runChk (unpatchedCfg 0 false true) 1 0 f7Threads
       (fun s => allBlocked (unpatchedCfg 0 false true) s && s.pd == .kill && s.dirty == 17 &&
-        s.pl == .done && s.pf == .done && s.pc == .done && s.pk == .done && s.readQ == [[11]]) = true := by
+        s.pl == .done && s.pf == .done && s.pc == .done && s.pk == .done && s.readQ == [[11]] && letsGoB s) = true := by
   decide
 
 /-- F12: (after one commit went through all stages) a small commit is logged and flushed but
@@ -396,14 +587,15 @@ theorem F7_witness_workers :
     small file only (it stops at the first end of file once shutdown is set), which does not
     take the queue below the limit, so nobody ever notifies again: `join(log_thread)` hangs. -/
 def f12Schedule : List Act :=
-  [.commit 0 10] ++ rep 14 L ++ rep 8 F ++ rep 16 C ++ rep 9 K ++
+  [.commit 0 10] ++ rep 15 L ++ rep 8 F ++ rep 16 C ++ rep 9 K ++
   [.commit 0 10] ++ rep 12 L ++ rep 7 F ++ [.commit 0 134217728] ++ rep 8 L ++
   [.drop, D, D, L] ++ rep 4 F ++ rep 6 C ++ rep 4 K
 
 theorem F12_witness :
     runChk (unpatchedCfg 0 true true) 1 0 f12Schedule
       (fun s => allBlocked (unpatchedCfg 0 true true) s && s.pd == .joinL && s.pl == .lqParked &&
-        !s.lqNotified && s.pf == .done && s.pc == .done && s.pk == .done && s.readQ == [[134217729]]) = true := by
+        !s.lqNotified && s.pf == .done && s.pc == .done && s.pk == .done && s.readQ == [[134217729]] &&
+        letsGoB s) = true := by
   decide
 
 /-- F13: commit A (> 16 MiB) is popped by the log worker, commit B (> 16 MiB) is queued, the
@@ -411,16 +603,18 @@ theorem F12_witness :
     All workers exit.  The next commit call finds the queue above its limit, waits on the
     queue-full condvar BEFORE looking at the stored error, and nobody is left to wake it. -/
 def f13Schedule : List Act :=
-  [.commit 0 16777217] ++ rep 5 L ++ [.commit 1 16777217, .fail .L] ++ rep 3 L ++ [F, C] ++ rep 4 K ++
+  [.commit 0 16777217] ++ rep 6 L ++ [.commit 1 16777217, .fail .L] ++ rep 3 L ++ [F, C] ++ rep 4 K ++
   [.commit 0 5, .cmTick 0]
 
 theorem F13_witness :
     runChk (unpatchedCfg 0 true true) 2 0 f13Schedule
       (fun s => allBlocked (unpatchedCfg 0 true true) s && s.pd == .idle && s.bgErr &&
-        s.cms == [.parked 5 false, .idle] && s.pl == .done && s.pf == .done && s.pc == .done && s.pk == .done) = true := by
+        s.cms == [.parked 5 false, .idle] && s.pl == .done && s.pf == .done && s.pc == .done && s.pk == .done &&
+        letsGoB s) = true := by
   decide
 
-/-- The full statement is false of the unpatched programs (each of F7, F12, F13 alone refutes it). -/
+/-- The full statement is false of the unpatched programs (each of F7, F12, F13 alone refutes it);
+    no client-held lock is involved (`letsGoB`). -/
 theorem C15_no_stuck_false_unpatched :
     ¬ C15_no_stuck_stmt (unpatchedCfg 0 false true) 1 0 ∧ ¬ C15_no_stuck_stmt (unpatchedCfg 0 true true) 1 0 ∧
     ¬ C15_no_stuck_stmt (unpatchedCfg 0 true true) 2 0 := by
@@ -428,22 +622,407 @@ theorem C15_no_stuck_false_unpatched :
   · intro hall
     obtain ⟨s, hr, hp⟩ := runChk_sound F7_witness_workers
     simp only [Bool.and_eq_true, beq_iff_eq] at hp
-    have := (hall s hr hp.1.1.1.1.1.1.1).1
-    rw [hp.1.1.1.1.1.1.2] at this
+    have := (hall s hr hp.1.1.1.1.1.1.1.1 (clientLetsGo_of_b hp.2) (noCycle_of_b hp.2)).1
+    rw [hp.1.1.1.1.1.1.1.2] at this
     rcases this with h | h <;> cases h
   · intro hall
     obtain ⟨s, hr, hp⟩ := runChk_sound F12_witness
     simp only [Bool.and_eq_true, beq_iff_eq] at hp
-    have := (hall s hr hp.1.1.1.1.1.1.1).1
-    rw [hp.1.1.1.1.1.1.2] at this
+    have := (hall s hr hp.1.1.1.1.1.1.1.1 (clientLetsGo_of_b hp.2) (noCycle_of_b hp.2)).1
+    rw [hp.1.1.1.1.1.1.1.2] at this
     rcases this with h | h <;> cases h
   · intro hall
     obtain ⟨s, hr, hp⟩ := runChk_sound F13_witness
     simp only [Bool.and_eq_true, beq_iff_eq] at hp
-    have := (hall s hr hp.1.1.1.1.1.1.1).2.1
-    rw [hp.1.1.1.1.2] at this
+    have := (hall s hr hp.1.1.1.1.1.1.1.1 (clientLetsGo_of_b hp.2) (noCycle_of_b hp.2)).2.1
+    rw [hp.1.1.1.1.1.2] at this
     have := this (.parked 5 false) (by simp)
     cases this
+
+/-! ### progress of the running system -/
+
+/-- **C15_progress.**  Any configuration with workers, any reachable state (shutdown requested
+    or not, error stored or not): EVERY step of EVERY thread - the four workers, the owner of
+    the handle inside `drop`, a committer inside a `commit` call - strictly decreases the
+    potential `phi` = 100·queued commits + 100·pending reindex batches + 60·records in the
+    appending log + 3·records in flushed logs + 25·flushed log files + 7·[dirty logs above the
+    keep level] + one credit per set `WaitCondvar` flag (what the wake-up will cost) + the
+    distance of each thread to its next park.  Only actions of the client / the environment
+    (`commit`, `drop`, lock / unlock, injected failures, index growth) can increase it - and
+    `defer`, which IS a step of the log worker but is enabled only while a client holds a tree
+    lock (`treeLocked`) or a deferral cycle is queued (`deferCycle`, finding F27 of C15 = F4c of C11): it is kept
+    out of `Act.isThread`, `C15_defer_busy_spin` / `C15_defer_cycle_livelock` show that with it
+    the log worker does spin.  No fairness assumption is needed: without `defer` the threads
+    cannot spin, whatever the scheduler does. -/
+theorem C15_progress (cfg : Cfg) (hw : cfg.workers = true) (n r : Nat) (s s' : St) (a : Act)
+    (h : Reachable cfg n r s) (ha : a.isThread = true) (hs : step cfg s a = some s') :
+    phi cfg s' < phi cfg s := phi_thread_step hw h ha hs
+
+/-- hence a run without client activity is at most `phi` steps long ... -/
+theorem C15_client_free_runs_are_finite (cfg : Cfg) (hw : cfg.workers = true) (n r : Nat) (s s' : St)
+    (as : List Act) (h : Reachable cfg n r s) (hall : ∀ a ∈ as, a.isThread = true) (hr : run cfg s as = some s') :
+    as.length + phi cfg s' ≤ phi cfg s := (phi_bounds_run hw as s s' h hall hr).1
+
+/-- **C15_drains.**  Fixed configuration: from every reachable state the threads by themselves
+    ("without needing further client activity") reach, within `phi` steps, a state in which
+    none of them can move; EVERY maximal client-free run ends in such a state (it cannot go on
+    for ever: `C15_client_free_runs_are_finite`); and there - provided no client-held lock is
+    what blocks the commit worker / `kill_logs` - nothing is pending: no commit call is parked
+    (a throttled committer has returned), the queue is empty (every accepted commit is
+    written to the log), every flushed log file is enacted, the appending file is below the
+    flush threshold (a commit is applied to the tables "once its log file is rotated"), and a
+    drop in progress has completed. -/
+theorem C15_drains (cfg : Cfg) (hF : Fixed cfg) (hm : cfg.minLog ≤ MAXL) (n r : Nat) (s : St)
+    (h : Reachable cfg n r s) :
+    (∃ as s', (∀ a ∈ as, a.isThread = true) ∧ as.length ≤ phi cfg s ∧ run cfg s as = some s' ∧
+        allBlocked cfg s' = true) ∧
+    (∀ as s', (∀ a ∈ as, a.isThread = true) → run cfg s as = some s' → allBlocked cfg s' = true →
+        clientLetsGo s' → s'.deferCycle = false → nothingPending cfg s') := by
+  constructor
+  · obtain ⟨as, s', hall, hr, hb, hlen⟩ := reaches_quiescence hF.w (phi cfg s) s h (Nat.le_refl _)
+    exact ⟨as, s', hall, hlen, hr, hb⟩
+  · intro as s' hall hr hb hcl hdc
+    exact C15_no_stuck cfg hF hm n r s' (phi_bounds_run hF.w as s s' h hall hr).2 hb hcl hdc
+
+/-- **C15_quiescent_accounting.**  ... and in that state of the running system, with no error
+    stored: every accepted commit has been written to the write-ahead log (accepted commits +
+    reindex batches = records written; record ids start at 1), every record but those still in
+    the (unrotated) appending file is enacted, no commit call is pending. -/
+theorem C15_quiescent_accounting (cfg : Cfg) (hF : Fixed cfg) (hm : cfg.minLog ≤ MAXL) (n r : Nat) (s : St)
+    (h : Reachable cfg n r s) (hb : allBlocked cfg s = true) (hcl : clientLetsGo s) (hsh : s.shutdown = false) :
+    s.accepted + s.nBatches + 1 = s.nLogged ∧ s.nLogged = s.nEnacted + s.app.length ∧
+    sum s.app ≤ cfg.minLog ∧ (∀ c ∈ s.cms, c = .idle) ∧ s.lost = 0 := by
+  obtain ⟨_, pl, _, _, _, _, hq, happ, hrq, hrd, _, hidle⟩ := C15_quiescent cfg hF hm n r s h hb hcl hsh
+  obtain ⟨g1, ga⟩ := ga_reachable hF.w h
+  have hbe : s.bgErr = false := by
+    cases hbe : s.bgErr with
+    | false => rfl
+    | true => have := g1.a7 hbe; rw [hsh] at this; cases this
+  have hlost : s.lost = 0 := by
+    cases hl : s.lost with
+    | zero => rfl
+    | succ k =>
+      rcases ga.r3 (by omega) with h1 | h1
+      · rw [hbe] at h1; cases h1
+      · rw [pl] at h1; cases h1
+  have h2 := ga.r2
+  have h1 := ga.r1
+  simp only [RA2, RA1, hq, pl, inflight, hlost, hrq, hrd, optLen, List.length_nil, lenSum_nil] at h1 h2
+  exact ⟨by omega, by omega, happ, hidle, hlost⟩
+
+/-- non-vacuity: the potential of the initial state, of a state with a throttled committer and
+    two 9 MB commits queued, and the length of a concrete client-free run against it -/
+example : phi (patchedCfg 0 true true) (init (patchedCfg 0 true true) 1 0) = 36 := by decide
+example : runChk (patchedCfg 0 true true) 3 0
+    [.commit 0 9000000, .commit 1 9000000, .commit 2 9000000, .cmTick 2]
+    (fun s => phi (patchedCfg 0 true true) s == 356 && s.cms == [.idle, .idle, .parked 9000000 false]) = true := by
+  decide
+
+/-! ### after the handle is gone: what `drop` leaves behind -/
+
+/-- **C15_drop_persists_all** (strengthened `FIN` + conservation).  Fixed configuration, drop
+    completed, no stored error: the queue and the appending file are EMPTY, no log file is half
+    read (so `Log::kill_logs`, which deletes the file being read, deletes no unread record:
+    `killLost = 0`), all dirty logs are reclaimed; every accepted commit was written
+    (accepted commits + reindex batches = records, ids start at 1) and every record written is
+    enacted or sits in a complete flushed file that the next open replays. -/
+theorem C15_drop_persists_all (cfg : Cfg) (hF : Fixed cfg) (n r : Nat) (s : St) (h : Reachable cfg n r s)
+    (hd : s.pd = .done) (hb : s.bgErr = false) :
+    s.dirty = 0 ∧ s.q = [] ∧ s.app = [] ∧ s.reading = none ∧ s.killLost = 0 ∧
+    s.accepted + s.nBatches + 1 = s.nLogged ∧ s.nLogged = s.nEnacted + lenSum s.readQ := by
+  obtain ⟨_, g1, _, _, gd⟩ := inv_reachable hF h
+  have ga := (ga_reachable hF.w h).2
+  have dL : s.pl = .done := g1.a9.1 (by rw [hd]; decide)
+  obtain ⟨hd0, hrest⟩ := gd.fin (Or.inr hd)
+  obtain ⟨hq, hsum, hrd, hkl⟩ := hrest hb
+  have happ : s.app = [] := by
+    cases hap : s.app with
+    | nil => rfl
+    | cons r rs =>
+      exfalso
+      have := ga.r4 r (by rw [hap]; simp)
+      rw [hap, sum_cons] at hsum; omega
+  have hlost : s.lost = 0 := by
+    cases hl : s.lost with
+    | zero => rfl
+    | succ n =>
+      rcases ga.r3 (by omega) with h1 | h1
+      · rw [hb] at h1; cases h1
+      · rw [dL] at h1; cases h1
+  have h2 := ga.r2
+  have h1 := ga.r1
+  simp only [RA2, RA1, hq, dL, inflight, hlost, happ, hrd, optLen, List.length_nil] at h1 h2
+  exact ⟨hd0, hq, happ, hrd, hkl, by omega, by omega⟩
+
+/-- `readQ = []` is NOT part of it: `kill_logs` runs `while enact_logs(false)? {}` three times and
+    each run ends at the first end of file, so at most three flushed files are enacted; with five
+    flushed, unread files at the time of the drop (commit worker never scheduled before the
+    shutdown flag is set: it exits at once) two complete files stay on disk.  (They are
+    replayed by the next open: C13.) -/
+def dropLeavesFiles : List Act :=
+  [.commit 0 10] ++ rep 15 L ++ rep 8 F ++
+  (List.replicate 4 ([Act.commit 0 10] ++ rep 12 L ++ rep 7 F)).flatten ++
+  [.drop, D, D] ++ rep 5 L ++ rep 3 F ++ rep 4 K ++ [C] ++ rep 6 D
+
+theorem C15_drop_leaves_flushed_files :
+    runChk (patchedCfg 0 true true) 1 0 dropLeavesFiles
+      (fun s => s.pd == .done && s.readQ == [[11], [11]] && s.reading == none && s.killLost == 0 &&
+        s.accepted == 5 && s.nLogged == 6 && s.nEnacted == 4 && !s.bgErr) = true := by
+  decide
+
+/-! ### (a) commit deferral -/
+
+/-- `defer_commit` happens only while a client holds the tree lock, or (the other deferral
+    reason: a LATER queued commit recorded the tree in `used_trees`) while a deferral cycle is
+    queued; the commit goes to the back of the queue, nothing is written, `process_commits`
+    returns Ok(true) -/
+theorem C15_defer_only_while_locked (cfg : Cfg) (s s' : St) (h : step cfg s .defer = some s') :
+    (s.treeLocked = true ∨ (s.deferCycle = true ∧ s.q ≠ [])) ∧
+    s'.q = s.q ++ (match s.pl with | .write1 b => [b] | _ => []) ∧
+    s'.moreCommits = true ∧ s'.app = s.app ∧ s'.nLogged = s.nLogged := by
+  simp only [step] at h
+  split at h
+  · rename_i hg
+    simp only [Bool.and_eq_true, Bool.or_eq_true, Bool.not_eq_true', List.isEmpty_eq_false_iff] at hg
+    split at h
+    · rename_i b hp; cases h; simp [hg.1, hp]
+    · cases h
+  · cases h
+
+/-- the busy spin: handle dropped, shutdown notified, flush / commit / cleanup worker gone, the
+    log worker holds the popped DereferenceTree while the client keeps the tree lock:
+    `defer; L; L; L; L` returns to the SAME state (but for the ghost counter): the log worker
+    loops `while !shutdown || more_commits` without ever waiting, `join(log_thread)` never
+    returns, nothing is logged.  No thread is blocked, so this is not a stuck state and no
+    fairness among the THREADS helps: the client has to release the lock. -/
+def deferSpinPrefix : List Act :=
+  [.commit 0 10, .lockTree] ++ rep 6 L ++ [.drop, D, D, F, C] ++ rep 4 K ++ [.defer] ++ rep 4 L
+
+def deferCycle : List Act := [.defer] ++ rep 4 L
+
+theorem C15_defer_busy_spin :
+    runChk (patchedCfg 0 true true) 1 0 deferSpinPrefix
+      (fun s => s.pd == .joinL && s.sdDone && s.treeLocked && s.pl == .write1 10 && s.pf == .done &&
+        s.pc == .done && s.pk == .done && s.app == [] && !allBlocked (patchedCfg 0 true true) s &&
+        (run (patchedCfg 0 true true) s deferCycle).map (fun s' => { s' with nDeferred := s.nDeferred }) == some s)
+      = true := by
+  decide
+
+/-- ... and as soon as the client releases the tree lock the deferred commit is logged, the log
+    worker exits, `kill_logs` enacts it, the drop completes -/
+theorem C15_defer_release_terminates :
+    runChk (patchedCfg 0 true true) 1 0
+      (deferSpinPrefix ++ deferCycle ++ deferCycle ++ [.unlockTree] ++ rep 8 L ++ rep 6 D)
+      (fun s => s.pd == .done && s.q == [] && s.app == [] && s.nEnacted == 2 && s.nDeferred == 3 &&
+        s.accepted == 1) = true := by
+  decide
+
+/-- without workers (stepping API), same thread: a queued DereferenceTree whose tree the client
+    keeps locked makes `kill_logs` (`while process_commits()? {}`) spin for ever: the drop
+    blocks at `kill`; this is the state excluded by the second clause of `clientLetsGo` -/
+theorem C15_defer_kill_blocks :
+    runChk (patchedCfg 0 true false) 1 0 ([.commit 0 10, .lockTree, .drop] ++ rep 6 D)
+      (fun s => allBlocked (patchedCfg 0 true false) s && s.pd == .kill && s.treeLocked && s.q == [10]) = true := by
+  decide
+
+/-- FINDING (deferral livelock, no lock held): X = [DereferenceTree T, InsertTree A] and
+    Y = [DereferenceTree T, InsertTree B] are committed while a reader of T is locked (each
+    InsertTree records `used_trees ∋ T`), then the reader is unlocked and dropped.  X is
+    deferred because Y behind it uses T, Y because X' behind it uses T, for ever: with the
+    handle being dropped, `defer; L⁴; defer; L⁴` returns to the same state; nothing is ever
+    logged, `join(log_thread)` never returns, one core spins.  Same schedule on the real
+    crate: harness `pdbverif c15` scenario `defercycle`. -/
+def deferCyclePrefix : List Act :=
+  [.lockTree, .commit 0 10, .commit 1 20, .makeCycle, .unlockTree] ++ rep 6 L ++ [.drop, D, D, F, C] ++ rep 4 K ++
+  [.defer] ++ rep 4 L ++ [.defer] ++ rep 4 L
+
+def deferCycle2 : List Act := [.defer] ++ rep 4 L ++ [.defer] ++ rep 4 L
+
+theorem C15_defer_cycle_livelock :
+    runChk (patchedCfg 0 true true) 2 0 deferCyclePrefix
+      (fun s => s.pd == .joinL && s.sdDone && !s.treeLocked && !s.iterHeld && s.pl == .write1 10 && s.q == [20] &&
+        s.pf == .done && s.pc == .done && s.pk == .done && s.app == [] && s.nLogged == 1 && s.accepted == 2 &&
+        !allBlocked (patchedCfg 0 true true) s &&
+        (run (patchedCfg 0 true true) s deferCycle2).map (fun s' => { s' with nDeferred := s.nDeferred }) == some s)
+      = true := by
+  decide
+
+/-- the same without workers: `kill_logs` never returns (`while process_commits()? {}`), no lock
+    is held: the no-stuck statement without its last hypothesis is false -/
+theorem C15_defer_cycle_kill_blocks :
+    runChk (patchedCfg 0 true false) 2 0
+      ([.lockTree, .commit 0 10, .commit 1 20, .makeCycle, .unlockTree, .drop] ++ rep 6 D)
+      (fun s => allBlocked (patchedCfg 0 true false) s && s.pd == .kill && !s.treeLocked && !s.iterHeld &&
+        s.q == [10, 20] && s.deferCycle) = true := by
+  decide
+
+/-- an ordinary commit queued behind the cycle still gets through (the rotation pops it):
+    only the cyclic commits starve -/
+example : runChk (patchedCfg 0 true true) 3 0
+    ([.lockTree, .commit 0 10, .commit 1 20, .makeCycle, .unlockTree, .commit 2 7] ++ rep 6 L ++
+      [.defer] ++ rep 4 L ++ [.defer] ++ rep 4 L ++ rep 4 L)
+    (fun s => s.app == [8] && s.q == [10, 20] && s.nLogged == 2) = true := by decide
+
+/-! ### (b) worker panic (`ReachableP`: outside C15's quantifier) -/
+
+/-- The log worker panics while it holds a popped 16 MiB commit (`store_err` is skipped on
+    unwind: no shutdown flag, no error, no `notify_all`); a second commit is queued (queue above
+    16 MiB); the next commit call parks on the queue-full condvar: every thread is blocked, the
+    commit call never returns, no error is ever reported. -/
+def panicSchedule : List Act :=
+  [.commit 0 16777217] ++ rep 6 L ++ [.commit 1 16777217, .panic .L] ++ rep 2 F ++ rep 4 C ++ rep 9 K ++
+  [.commit 0 5, .cmTick 0]
+
+theorem C15_panic_witness :
+    runChkP (patchedCfg 0 true true) 2 0 panicSchedule
+      (fun s => allBlocked (patchedCfg 0 true true) s && s.pd == .idle && !s.shutdown && !s.bgErr &&
+        s.cms == [.parked 5 false, .idle] && s.pl == .done && s.q == [16777217] && letsGoB s) = true := by
+  decide
+
+/-- hence the no-stuck statement does NOT extend to schedules with worker panics, even for the
+    fixed configuration: every theorem of this file is about `Reachable` (panic-free schedules) -/
+theorem C15_no_stuck_false_with_panic :
+    ¬ ∀ s, ReachableP (patchedCfg 0 true true) 2 0 s → allBlocked (patchedCfg 0 true true) s = true →
+        clientLetsGo s → s.deferCycle = false → nothingPending (patchedCfg 0 true true) s := by
+  intro hall
+  obtain ⟨s, hr, hp⟩ := runChkP_sound C15_panic_witness
+  simp only [Bool.and_eq_true, beq_iff_eq] at hp
+  have := (hall s hr hp.1.1.1.1.1.1.1 (clientLetsGo_of_b hp.2) (noCycle_of_b hp.2)).2.1
+  rw [hp.1.1.1.2] at this
+  have := this (.parked 5 false) (by simp)
+  cases this
+
+/-- the `WaitCondvar` protocol itself does not depend on it -/
+theorem C15_no_lost_wakeup_with_panic (cfg : Cfg) (nCm reidx : Nat) (s : St) (h : ReachableP cfg nCm reidx s) :
+    CvInv s := cvInv_reachableP h
+
+/-! ### (c) the iteration lock -/
+
+/-- `iteration_lock` is a mutex between the commit worker inside `enact_logs` (from the read to
+    the return, including the wait for the cleanup worker) and a client inside an
+    `iter_column_while` callback -/
+theorem C15_iteration_lock_exclusive (cfg : Cfg) (hw : cfg.workers = true) (n r : Nat) (s : St)
+    (h : Reachable cfg n r s) (hc : cHoldsIter s = true) : s.iterHeld = false := by
+  have ga := (ga_reachable hw h).2
+  apply ga.r5
+  simpa [cHoldsIter] using hc
+
+/-- a parked client callback stalls the commit worker: everybody is blocked while a flushed log
+    file is pending (the state excluded by the first clause of `clientLetsGo`; the harness
+    scenario `quiesce` builds exactly this) ... -/
+def iterStallSchedule : List Act :=
+  [.iterHold, .commit 0 10] ++ rep 15 L ++ rep 8 F ++ rep 3 C ++ rep 9 K
+
+theorem C15_iter_held_stalls :
+    runChk (patchedCfg 0 true true) 1 0 iterStallSchedule
+      (fun s => allBlocked (patchedCfg 0 true true) s && s.iterHeld && s.pc == .enRead && s.readQ == [[11]] &&
+        !s.shutdown) = true := by
+  decide
+
+/-- ... and drains by itself once the callback returns -/
+theorem C15_iter_release_drains :
+    runChk (patchedCfg 0 true true) 1 0 (iterStallSchedule ++ [.iterRelease] ++ rep 13 C ++ rep 5 K)
+      (fun s => allBlocked (patchedCfg 0 true true) s && s.readQ == [] && s.reading == none && s.nEnacted == 2 &&
+        s.dirty == 0) = true := by
+  decide
+
+/-! ### (d) reindex gating -/
+
+/-- **C15_reindex_needs_only_a_wakeup.**  Fixed configuration with `always_flush`: in a quiescent
+    state of the running system every record is enacted, so a scheduled reindex
+    (`nextRe ≠ 0`) has its gate OPEN, and the log worker is parked on `log_worker_wait` with
+    the flag unset: the only thing a pending reindex is waiting for is a `signal` of that
+    condvar - which only `commit_raw` and `shutdown` ever issue. -/
+theorem C15_reindex_needs_only_a_wakeup (cfg : Cfg) (hF : Fixed cfg) (hm : cfg.minLog = 0) (n r : Nat) (s : St)
+    (h : Reachable cfg n r s) (hb : allBlocked cfg s = true) (hcl : clientLetsGo s) (hsh : s.shutdown = false) :
+    s.pl = .waitL ∧ s.cvL.flag = false ∧ s.nEnacted = s.nLogged ∧ s.nextRe ≤ s.nEnacted ∧
+    (s.nextRe ≠ 0 → reGate s = true) := by
+  obtain ⟨_, pl, fl, _, _, _, _, happ, hrq, hrd, _, _⟩ :=
+    C15_quiescent cfg hF (by rw [hm]; exact Nat.zero_le _) n r s h hb hcl hsh
+  have ga := (ga_reachable hF.w h).2
+  have happ' : s.app = [] := by
+    cases hap : s.app with
+    | nil => rfl
+    | cons r rs =>
+      exfalso
+      have := ga.r4 r (by rw [hap]; simp)
+      rw [hap, sum_cons, hm] at happ; omega
+  have h1 := ga.r1
+  have h6 := ga.r6
+  simp only [RA1, RA6, happ', hrq, hrd, optLen, List.length_nil, lenSum_nil] at h1 h6
+  refine ⟨pl, fl, by omega, by omega, fun hne => ?_⟩
+  simp only [reGate, Bool.and_eq_true, bne_iff_ne, ne_eq, decide_eq_true_eq]
+  exact ⟨hne, by omega⟩
+
+/-- REFUTATION of "a pending reindex completes without further client activity": a commit whose
+    plan overflowed an index table (`grow 2`: two batches) is logged, flushed, enacted; the log
+    worker had found the gate closed (`next_reindex > last_enacted`) and went to sleep; the gate
+    is open now, two batches are pending, every thread is parked, nothing will ever happen
+    until the next `commit` (or the drop, which does NOT reindex either). -/
+def reindexStallSchedule : List Act :=
+  [.commit 0 10] ++ rep 7 L ++ [.grow 2] ++ rep 8 L ++ rep 8 F ++ rep 16 C ++ rep 9 K
+
+theorem C15_reindex_stalls :
+    runChk (patchedCfg 0 true true) 1 0 reindexStallSchedule
+      (fun s => allBlocked (patchedCfg 0 true true) s && s.pd == .idle && !s.shutdown && s.reidx == 2 &&
+        reGate s && s.q == [] && s.readQ == [] && s.pl == .waitL && !s.cvL.flag && letsGoB s) = true := by
+  decide
+
+/-- one more commit (any) wakes the log worker: both batches are logged, enacted, `next_reindex`
+    is cleared -/
+theorem C15_reindex_resumes_on_commit :
+    runChk (patchedCfg 0 true true) 1 0
+      (reindexStallSchedule ++ [.commit 0 10] ++ rep 17 L ++ rep 7 F ++ rep 15 C ++ rep 5 K)
+      (fun s => allBlocked (patchedCfg 0 true true) s && s.reidx == 0 && s.nextRe == 0 && s.nBatches == 2 &&
+        s.nEnacted == 5 && s.nLogged == 5) = true := by
+  decide
+
+/-- the lost trigger: the log worker found nothing more to reindex and is about to store
+    `next_reindex = 0` (`reClear`); the commit worker enacts the record that drops the old index
+    table, which makes the NEXT queued table's batches available, and calls `start_reindex`;
+    the log worker's store overwrites it: a reindex is pending with no trigger left; not even
+    further commits restart it (only the next index growth or a reopen does). -/
+def lostTriggerSchedule : List Act :=
+  [.commit 0 10] ++ rep 7 L ++ [.grow 1] ++ rep 8 L ++ rep 8 F ++ rep 16 C ++ rep 9 K ++
+  [.commit 0 10] ++ rep 10 L ++ rep 7 F ++ rep 5 C ++ [.dropEnacted 1] ++ rep 3 L ++ rep 7 C ++ rep 5 K
+
+theorem C15_reindex_lost_trigger :
+    runChk (patchedCfg 0 true true) 1 0 lostTriggerSchedule
+      (fun s => allBlocked (patchedCfg 0 true true) s && s.reidx == 1 && s.nextRe == 0 && !reGate s &&
+        s.nEnacted == s.nLogged && !s.shutdown) = true := by
+  decide
+
+/-- ... while every COMMIT is still logged and enacted (C15's statement is about commits): the
+    stalled reindex keeps no log file and no commit waiting -/
+theorem C15_reindex_stall_harmless_for_commits :
+    runChk (patchedCfg 0 true true) 1 0 (lostTriggerSchedule ++ [.commit 0 7] ++ rep 12 L ++ rep 7 F ++ rep 9 C ++ rep 5 K)
+      (fun s => allBlocked (patchedCfg 0 true true) s && s.reidx == 1 && s.accepted == 3 &&
+        s.nEnacted == s.nLogged && s.nLogged == 5 && s.q == [] && s.readQ == []) = true := by
+  decide
+
+/-! ### (e) failures at every `?` of the worker loops; T0 ties for the new behaviours -/
+
+/-- the initial `process_reindex()?` of the log worker fails: error stored, shutdown, everybody
+    exits, a later commit is refused, the drop completes -/
+example : runChk (patchedCfg 0 true true) 1 0
+    ([.fail .L] ++ rep 3 L ++ [F, C] ++ rep 4 K ++ [.commit 0 5, .drop] ++ rep 8 D)
+    (fun s => s.pd == .done && s.bgErr && s.refused == 1 && s.pl == .done) = true := by decide
+
+/-- `process_reindex()?` inside the loop fails after a commit was logged -/
+example : runChk (patchedCfg 0 true true) 1 0
+    ([.commit 0 10] ++ rep 8 L ++ [.fail .L] ++ rep 3 L)
+    (fun s => s.pl == .done && s.bgErr && s.shutdown && s.app == [11] && s.lost == 0) = true := by decide
+
+/-- T0: `enact_logs` takes the iteration lock before it reads the log; `process_commits` decides
+    the deferral before it begins the record; `process_reindex` is called once before and once
+    inside the log worker's loop -/
+theorem C15_gen_new_shapes :
+    Ord.before .lockIteration .readNext Order.enactLogs = true ∧
+    Ord.before .popQueue .deferCommit Order.processCommits = true ∧
+    Ord.before .deferCommit .beginRecord Order.processCommits = true ∧
+    Ord.count .callProcessReindex Order.logWorker = 2 ∧
+    Ord.before .callProcessReindex .whileRunning Order.logWorker = true ∧
+    Ord.before .endRecord .startReindex Order.processCommits = true := by decide
 
 /-! ### non-vacuity: the same schedules under the fixed configuration run to completion -/
 
@@ -459,7 +1038,7 @@ example : runChk (patchedCfg 0 false true) 1 0 (f7Threads ++ [D, D])
 /-- the F12 schedule, fixed: `shutdown()` has to wait for the mutex, the log worker parks, is
     notified and exits; the drop completes -/
 example : runChk (patchedCfg 0 true true) 1 0
-    ([.commit 0 10] ++ rep 14 L ++ rep 8 F ++ rep 16 C ++ rep 9 K ++
+    ([.commit 0 10] ++ rep 15 L ++ rep 8 F ++ rep 16 C ++ rep 9 K ++
       [.commit 0 10] ++ rep 12 L ++ rep 7 F ++ [.commit 0 134217728] ++ rep 8 L ++
       [.drop, D, L, D] ++ rep 4 L ++ rep 4 F ++ rep 6 C ++ rep 4 K ++ rep 6 D)
     (fun s => s.pd == .done && s.pl == .done && s.q == [] && s.dirty == 0) = true := by
@@ -467,7 +1046,7 @@ example : runChk (patchedCfg 0 true true) 1 0
 
 /-- the F13 schedule, fixed: the late commit call returns (refused) instead of waiting -/
 example : runChk (patchedCfg 0 true true) 2 0
-    ([.commit 0 16777217] ++ rep 5 L ++ [.commit 1 16777217, .fail .L] ++ rep 3 L ++ [F, C] ++ rep 4 K ++
+    ([.commit 0 16777217] ++ rep 6 L ++ [.commit 1 16777217, .fail .L] ++ rep 3 L ++ [F, C] ++ rep 4 K ++
       [.commit 0 5])
     (fun s => s.cms == [.idle, .idle] && s.refused == 1 && s.accepted == 2 && s.bgErr) = true := by
   decide
@@ -475,7 +1054,7 @@ example : runChk (patchedCfg 0 true true) 2 0
 /-- a committer is really throttled and woken in the model: three 9 MiB commits, the third
     waits until the log worker pops the first -/
 example : runChk (patchedCfg 0 true true) 3 0
-    ([.commit 0 9000000, .commit 1 9000000, .commit 2 9000000, .cmTick 2] ++ rep 5 L ++ [.cmTick 2])
+    ([.commit 0 9000000, .commit 1 9000000, .commit 2 9000000, .cmTick 2] ++ rep 6 L ++ [.cmTick 2])
     (fun s => s.cms == [.idle, .idle, .idle] && s.accepted == 3 && s.q == [9000000, 9000000]) = true := by
   decide
 
@@ -494,3 +1073,28 @@ end Pdb.Conc.Pipe
 #print axioms Pdb.Conc.Pipe.F12_witness
 #print axioms Pdb.Conc.Pipe.F13_witness
 #print axioms Pdb.Conc.Pipe.C15_no_stuck_false_unpatched
+#print axioms Pdb.Conc.Pipe.C15_quiescent
+#print axioms Pdb.Conc.Pipe.C15_progress
+#print axioms Pdb.Conc.Pipe.C15_client_free_runs_are_finite
+#print axioms Pdb.Conc.Pipe.C15_drains
+#print axioms Pdb.Conc.Pipe.C15_quiescent_accounting
+#print axioms Pdb.Conc.Pipe.C15_drop_persists_all
+#print axioms Pdb.Conc.Pipe.C15_drop_leaves_flushed_files
+#print axioms Pdb.Conc.Pipe.C15_defer_only_while_locked
+#print axioms Pdb.Conc.Pipe.C15_defer_busy_spin
+#print axioms Pdb.Conc.Pipe.C15_defer_release_terminates
+#print axioms Pdb.Conc.Pipe.C15_defer_kill_blocks
+#print axioms Pdb.Conc.Pipe.C15_defer_cycle_livelock
+#print axioms Pdb.Conc.Pipe.C15_defer_cycle_kill_blocks
+#print axioms Pdb.Conc.Pipe.C15_panic_witness
+#print axioms Pdb.Conc.Pipe.C15_no_stuck_false_with_panic
+#print axioms Pdb.Conc.Pipe.C15_no_lost_wakeup_with_panic
+#print axioms Pdb.Conc.Pipe.C15_iteration_lock_exclusive
+#print axioms Pdb.Conc.Pipe.C15_iter_held_stalls
+#print axioms Pdb.Conc.Pipe.C15_iter_release_drains
+#print axioms Pdb.Conc.Pipe.C15_reindex_needs_only_a_wakeup
+#print axioms Pdb.Conc.Pipe.C15_reindex_stalls
+#print axioms Pdb.Conc.Pipe.C15_reindex_resumes_on_commit
+#print axioms Pdb.Conc.Pipe.C15_reindex_lost_trigger
+#print axioms Pdb.Conc.Pipe.C15_reindex_stall_harmless_for_commits
+#print axioms Pdb.Conc.Pipe.C15_gen_new_shapes
